@@ -24,12 +24,34 @@ def budget_for(baseline_units):
     return max(MIN_RLIMIT, 50 * int(baseline_units))
 
 
-def discharge(ob, timeout_ms=None, want_model=True, rlimit=None):
+class _Sub:
+    pass
+
+
+def discharge(ob, timeout_ms=None, want_model=True, rlimit=None, _split=True):
     t = time.time()
     g = ob.goal if not isinstance(ob.goal, bool) else z3.BoolVal(ob.goal)
     gs = z3.simplify(g)
     if z3.is_true(gs):
         ob.result, ob.backend, ob.seconds, ob.units = "proved", "simplifier", time.time() - t, 0
+        return ob
+    if _split and z3.is_implies(g) and z3.is_and(g.arg(1)) and g.arg(1).num_args() > 1:
+        g = z3.And(*[z3.Implies(g.arg(0), c) for c in g.arg(1).children()])
+    if _split and z3.is_and(g) and g.num_args() > 1:
+        # a conjunctive goal is discharged conjunct by conjunct (each against the same hypotheses):
+        # much more stable than one query, and a refuted conjunct still yields a model
+        res, units, model, reason = "proved", 0, None, ""
+        for c in g.children():
+            sub = _Sub()
+            sub.hyps, sub.goal = ob.hyps, c
+            discharge(sub, timeout_ms, want_model, rlimit, _split=True)
+            units = max(units, getattr(sub, "units", 0) or 0)
+            if sub.result == "refuted":
+                res, model = "refuted", getattr(sub, "model", None)
+                break
+            if sub.result != "proved":
+                res, reason = "open", sub.reason
+        ob.result, ob.backend, ob.seconds, ob.units, ob.model, ob.reason = res, "z3", time.time() - t, units, model, reason
         return ob
     s = z3.Solver()
     s.set("timeout", timeout_ms or WALL_CAP_MS)
@@ -39,6 +61,20 @@ def discharge(ob, timeout_ms=None, want_model=True, rlimit=None):
         s.add(h)
     s.add(z3.Not(g))
     r = s.check()
+    if r == z3.unknown and not (rlimit and rlimit < 30_000_000):
+        # deterministic retries: other seeds often succeed on mixed real/integer obligations
+        for seed in (1, 2, 3):
+            s2 = z3.Solver()
+            s2.set("timeout", timeout_ms or WALL_CAP_MS)
+            s2.set("rlimit", budget)
+            s2.set("random_seed", seed)
+            for h in ob.hyps:
+                s2.add(h)
+            s2.add(z3.Not(g))
+            r2 = s2.check()
+            if r2 != z3.unknown:
+                r, s = r2, s2
+                break
     ob.seconds = time.time() - t
     ob.backend = "z3"
     try:
